@@ -60,3 +60,50 @@ Proof. vm_compute. reflexivity. Qed.
    hypothesis wf_msg is necessary *)
 Theorem C02_nul_refuted : exists m, wf_msg m = false /\ parse_stream (enc_bmsg m) <> Some [m].
 Proof. exists (BComplete [x41; x00; x42]). split; [reflexivity|]. vm_compute. discriminate. Qed.
+
+(* ---------- every message of every connection ---------- *)
+Require Import Wire.Errors Wire.Framing Wire.Session Wire.SessionFacts Wire.Case Spec.WfFacts Spec.WfCase.
+Local Open Scope list_scope.
+Local Open Scope Z_scope.
+
+(* For every configuration whose handler-supplied data has an encoding at all — column
+   names, command tags, parameter keys/values, version and the texts of handler errors are
+   NUL-free (client-supplied names that end up in messages are NUL-free by construction,
+   and this is proved, not assumed), tables and parameter lists have fewer than 65536
+   entries, values are below a gigabyte — EVERY message the session sends, for every raw
+   byte stream and every TLS plaintext, in every phase (authentication, parameters, simple
+   and extended queries, COPY, errors of every origin: parser, handler, library, size
+   limit), is well formed: known type, counts within 16 bits and equal to the items that
+   follow, strings NUL-free, field lengths within 31 bits, ErrorResponse fields with
+   non-zero codes. *)
+Theorem C02_session : forall c raw tls, wf_cfg c -> forallb wf_bmsg (outs (serve c raw tls)) = true.
+Proof. exact serve_wf. Qed.
+Print Assumptions C02_session.
+
+(* for a scripted case the hypothesis is a decidable check, and the bytes the server sends
+   parse under the strict grammar to exactly the messages it meant (C02_codec), provided
+   each message fits the 32-bit length field *)
+Theorem C02_case_stream_parses : forall sc,
+  wf_case sc = true -> forallb wf_size (outs (run_case sc)) = true ->
+  parse_stream (enc_stream (outs (run_case sc))) = Some (outs (run_case sc)).
+Proof. exact case_stream_parses. Qed.
+Print Assumptions C02_case_stream_parses.
+
+Definition ex_case : scase :=
+  {| sc_limit := 64; sc_auth := None; sc_params := [(bs "TimeZone", bs "UTC")]; sc_version := bs "15"; sc_tls := false; sc_mws := [];
+     sc_term := None;
+     sc_parse := [(bs "q", POk [ {| s_id := 1; s_cols := [ {| c_name := bs "a"; c_table := -1; c_attrno := 70000; c_oid := 25; c_width := -2 |} ];
+                                   s_poids := [23; -1]; s_prog := [HRow [VText (bs "x")]; HRow [VNil; VNil]; HCopyIn 1; HComplete (bs "SELECT 1")];
+                                   s_stop := false; s_ret := RetErr (ESource (bs "f.go") (-3) (bs "fn") (EHint (bs "h") (EBase (bs "boom")))) |} ]);
+                  (bs "bad", PErr (ECode (bs "42601") (EBase (bs "syntax"))))];
+     sc_raw := ((let body := be32 196608 ++ cstr (bs "user") ++ cstr (bs "a") ++ [x00] in be32 (4 + lenZ body) ++ body) ++
+               client_msg x51 (cstr (bs "q")) ++ client_msg x51 (cstr (bs "bad")) ++
+               client_msg x50 (cstr (bs "s") ++ cstr (bs "q") ++ be16 0) ++ client_msg x44 (x53 :: cstr (bs "s")) ++
+               client_msg x42 (cstr (bs "nosuch") ++ cstr (bs "zz") ++ be16 0 ++ be16 0 ++ be16 0) ++ client_msg x53 [] ++
+               client_msg x7a [] ++ (x51 :: be32 1000 ++ [x00]))%list;
+     sc_tlsin := None |}.
+Example C02_ex_session :
+  wf_case ex_case = true /\ forallb wf_size (outs (run_case ex_case)) = true /\
+  List.length (outs (run_case ex_case)) = 23%nat /\
+  parse_stream (enc_stream (outs (run_case ex_case))) = Some (outs (run_case ex_case)).
+Proof. vm_compute. repeat split. Qed.
